@@ -5,7 +5,7 @@ pid = sys.argv[1]; n = sys.argv[2] if len(sys.argv) > 2 else "a"
 p = next(json.loads(l) for l in open("/verif/properties.jsonl") if json.loads(l)["id"] == pid)
 print(f"""You are testing how well a Rust library's behaviour is protected against subtle regressions. The library is the scylladb/scylla-rust-driver workspace, checked out as a git repository at /repo (do NOT modify /repo itself, and do not read or use anything under /verif). Work only in your own scratch git worktree, which you create with:
     git -C /repo worktree add /tmp/seed-{pid}-{n} HEAD
-and output directory /tmp/seed-out/{pid}-{n}/ . To save build time you may `cp -a /repo/target /tmp/seed-{pid}-{n}/target` (dependency artefacts are reused). Build and test offline: `cargo test --offline ...` (no network is available). Ignore the harmless conda warning every shell command prints.
+and output directory /tmp/seed-out/{pid}-{n}/ . Disk space is tight: do NOT copy /repo/target; instead export CARGO_TARGET_DIR=/tmp/seed-target (a build directory shared with other workers like you - cargo serialises builds on it, so a build may wait a minute on 'Blocking waiting for file lock'; never delete it). Keep whatever you write small and delete scratch files when done. Build and test offline: `cargo test --offline ...` (no network is available). Ignore the harmless conda warning every shell command prints.
 
 Here is a semantic property of the library that should always hold:
 
